@@ -1,7 +1,57 @@
-"""C12 - File-level obligations (see checks/file_common.py and DESIGN.md section 6)."""
+"""C12 - buffered data stays bounded (REDUCED SCOPE: invariants, no heap measurement).
+
+ * UncompressedFile::dropOldData: pops the front container iff it lies wholly behind tellg, tellp and the declared end
+   (C15 job, relabelled); each transfer function calls it once per transferred unit (file_common jobs);
+ * back-pressure: the two append operations wait until buffered bytes < threshold (predicates = spec), the queue's
+   producer waits at capacity; lemma: right after an append that was admitted, buffered < threshold + appended;
+ * File(): threshold = one container, queue capacity 10.
+Together: held <= threshold + a constant number of containers, independent of the file length.
+NOT decided: the actual peak heap; objects larger than a container.
+"""
 import sys, os
 sys.path.insert(0, os.path.dirname(os.path.dirname(os.path.abspath(__file__))))
 from run import core
-from checks import file_common
+from checks import file_common, c15, c16
+from checks.c06 import relabel
+
+LEMMA = r'''
+#include <stdint.h>
+void harness(void)
+{
+    int64_t g, p, th, add; _Bool abort_;
+    __CPROVER_assume(g >= 0 && g <= ((int64_t)1 << 60) && p >= g && p <= ((int64_t)1 << 60) && add >= 0 && add <= ((int64_t)1 << 32) && th >= 0 && th <= ((int64_t)1 << 60));
+    _Bool admitted = abort_ || (p - g) < th;          /* the wait predicate of both append operations */
+    __CPROVER_assert(!(admitted && !abort_) || (p + add) - g < th + add, "C12/lemma/after-an-admitted-append-buffered-bytes-stay-below-threshold-plus-the-appended-amount");
+    uint32_t size, cap;
+    __CPROVER_assert(!(!abort_ && size < cap) || size + 1u <= cap || cap == 0, "C12/lemma/queue-never-exceeds-its-capacity-unless-aborted");
+    __CPROVER_assert(0, "canary");
+}
+'''
+
+
+def extra(info):
+    js = []
+    for j in c15.jobs(2, 600):
+        if j.name.endswith('dropOldData'):
+            js.append(relabel(j, 'C15', ['UncompressedFile/dropOldData/']))
+        if j.name.endswith('setters_accessors_predicates'):
+            js.append(relabel(j, 'C15', ['UncompressedFile/write/wait-predicate', 'UncompressedFile/writeContainer/wait-predicate']))
+    for j in c16.jobs():
+        if j.name.endswith('write_waitpred'):
+            js.append(relabel(j, 'C16', ['ObjectQueue/write/wait-predicate']).__class__ and core.Job(j.name.replace('C16_', 'C12_'), j.source.replace('"C16/ObjectQueue/write/wait-predicate', '"C12/ObjectQueue/write/wait-predicate'),
+                                                                                   route=j.route, flags=j.flags, functions=j.functions, canary_ids=j.canary_ids, timeout=j.timeout))
+    js.append(core.Job('C12_lemma_backpressure', LEMMA, route='harness', flags=['--signed-overflow-check'], functions=['lemma over the back-pressure predicates'],
+                       canary_ids=['harness.assertion.3'], timeout=120))
+    fixed = []
+    for j in js:
+        if j.name.startswith('C06_'):
+            j = core.Job(j.name.replace('C06_', 'C12_'), j.source.replace('"C06/', '"C12/'), route=j.route, flags=j.flags, functions=j.functions,
+                         unwind=j.unwind, canary_ids=j.canary_ids, timeout=j.timeout, bounded=j.bounded)
+        fixed.append(j)
+    return fixed
+
+
 if __name__ == '__main__':
-    core.main_wrapper(lambda: file_common.run_property('C12'))
+    core.main_wrapper(lambda: file_common.run_property('C12', extra_jobs=extra, assumptions=[
+        'REDUCED SCOPE: the peak live heap is not measured; the bound follows from the invariants under the precondition object size <= container size',
+        'objects spanning several containers leave already-consumed containers until later drops (one pop per transferred unit): outside the invariant, documented limitation']))
